@@ -1,7 +1,7 @@
 """C18 — extraction to a path delivers exact bytes; failed checks leave nothing behind.
 
 Fault enumeration: size x extraction entry point (copy / hard link / reflink, checked and unchecked, by key and by
-address, sync / async-std / tokio) x destination state (absent, existing with other bytes, inside a missing
+address, sync / async-std / tokio) x destination state (absent, existing with other bytes / of the same length / longer, inside a missing
 directory) x content state (pristine, one representative of every damage class of C01, missing) x key state.
 """
 import os
@@ -48,7 +48,8 @@ def worker(ctx, job):
     if rep.get("ok") != sri:
         raise RuntimeError("setup write failed: %r" % rep)
     cpath = os.path.join(cache, ref.content_rel(sri))
-    prev = b"previous destination bytes"
+    prev0 = b"previous destination bytes"
+    prev = prev0
     entries = [(e, True) for e in retr.checked(flavour) if e[2] in ("copy", "link", "reflink")] + [(e, False) for e in retr.unchecked(flavour)]
     states = [("pristine", "pristine", "bytes", data)] + representative_damages(data, other, aux)
     for dname, klass, kind, payload in states:
@@ -56,14 +57,22 @@ def worker(ctx, job):
         res["states"] += 1
         damaged_bytes = damage.read_dest(cpath)
         for (name, by, rk), is_checked in entries:
-            for dstate in ("absent", "existing", "missing-dir", "linked-to-content"):
+            for dstate in ("absent", "existing", "existing-same-length", "existing-longer", "missing-dir", "linked-to-content"):
                 for keystate in (("present", "absent") if by == "key" else ("present",)):
                     if keystate == "absent" and (dstate != "absent" or klass not in ("pristine", "bitflip")):
                         continue
                     dest = os.path.join(aux, "dest") if dstate != "missing-dir" else os.path.join(aux, "no-such-dir", "dest")
                     fsutil.wipe(os.path.join(aux, "dest"))
                     fsutil.wipe(os.path.join(aux, "no-such-dir"))
-                    if dstate == "existing":
+                    prev = prev0
+                    if dstate == "existing-same-length":
+                        # written after the entry (newer mtime), same length, other bytes
+                        prev = bytes(b_ ^ 0x55 for b_ in data) if n else b""
+                    elif dstate == "existing-longer":
+                        prev = data + b"-stale tail of a longer file"
+                    if dstate in ("existing", "existing-same-length", "existing-longer"):
+                        if dstate != "existing" and (n == 0 or n > ref.MIB):
+                            continue
                         with open(dest, "wb") as fh:
                             fh.write(prev)
                     if dstate == "linked-to-content":
@@ -115,7 +124,7 @@ def worker(ctx, job):
                     else:
                         if is_checked and klass not in ("pristine", "symlink-identical") and rep["err"].get("variant") == "IntegrityError":
                             # verification failed: the unverified bytes must not be at the destination
-                            allowed = (None,) if dstate not in ("existing", "linked-to-content") else (None, prev, damaged_bytes)
+                            allowed = (None,) if dstate not in ("existing", "existing-same-length", "existing-longer", "linked-to-content") else (None, prev, damaged_bytes)
                             if after not in allowed and after == damaged_bytes and after != data:
                                 V.violation(res, sig + ":unverified-bytes-left", "checked extraction failed verification but left the damaged bytes at the destination",
                                             {"engine": "seqx", "case": case, "reply": rep})
